@@ -47,7 +47,7 @@ func (l LD) Len() int {
 			n += 2
 		case "u24":
 			n += 3
-		case "u32", "u32x", "u32le":
+		case "u32", "u32x", "u32f", "u32le":
 			n += 4
 		case "raw":
 			n += len(f.B)
@@ -83,7 +83,7 @@ func (l LD) Expand(seed int) ([]byte, error) {
 				return nil, fmt.Errorf("field %d: u32 out of range %d", i, f.V)
 			}
 			out = append(out, byte(f.V>>24), byte(f.V>>16), byte(f.V>>8), byte(f.V))
-		case "u32x":
+		case "u32x", "u32f":
 			if f.Hi < 0 || f.Hi > 0xffff || f.Lo < 0 || f.Lo > 0xffff {
 				return nil, fmt.Errorf("field %d: u32x out of range %d %d", i, f.Hi, f.Lo)
 			}
@@ -111,6 +111,39 @@ func (l LD) Expand(seed int) ([]byte, error) {
 		}
 	}
 	return out, nil
+}
+
+// Free marks the byte positions of fields whose value the format leaves to the writer ("u32f"): bytes
+// written by the code under test are not compared there. nil if the descriptor has no such field.
+func (l LD) Free() []bool {
+	var mask []bool
+	off := 0
+	for _, f := range l {
+		n := LD{f}.Len()
+		if f.K == "u32f" {
+			if mask == nil {
+				mask = make([]bool, l.Len())
+			}
+			for j := 0; j < n; j++ {
+				mask[off+j] = true
+			}
+		}
+		off += n
+	}
+	return mask
+}
+
+// DiffFree compares code-written bytes with expanded ones, skipping free positions; "" when they agree.
+func DiffFree(got, want []byte, free []bool) string {
+	if len(got) != len(want) {
+		return fmt.Sprintf("len %d vs %d", len(got), len(want))
+	}
+	for i := range got {
+		if got[i] != want[i] && (free == nil || !free[i]) {
+			return fmt.Sprintf("len %d vs %d, first difference at offset %d: %#02x vs %#02x", len(got), len(want), i, got[i], want[i])
+		}
+	}
+	return ""
 }
 
 // Parse decodes a JSON layout descriptor.
